@@ -105,8 +105,23 @@ def build(b, edges, rng, extra_nodes=()):
     return obj
 
 
+def mutate(b, obj, old, new, rng):
+    """edit the SAME object from the hyperedge set `old` into `new` through remove_edge / add_edge (nodes stay)"""
+    old, new = {tuple(e) for e in old}, {tuple(e) for e in new}
+    ops = [("remove", e) for e in sorted(old - new)] + [("add", e) for e in sorted(new - old)]
+    rng.shuffle(ops)
+    with quiet():
+        for op, e in ops:
+            if op == "remove":
+                obj.remove_edge(b._tuple(e))
+            else:
+                obj.add_edge(b._tuple(e))
+
+
 # ---------------------------------------------------------------------------
-# random walk part.  spec = {part, n, edges, case_seed, np_seed, ndens, nwalks}
+# random walk part.  spec = {part, n, edges, case_seed, np_seed, ndens, nwalks [, prev_edges]}
+# prev_edges: the object is first built with these hyperedges (connected, same nodes), every random-walk function is
+# called on it, then the SAME object is edited into `edges`; what is observed and judged is the object as it is now
 def rw_execute(spec):
     """build the hypergraph (labels 0..n-1) and call the four functions of dynamics/randwalk.py;
     returns (case for TLC, log); floats stay on this side"""
@@ -114,7 +129,19 @@ def rw_execute(spec):
     n, nseed = spec["n"], spec["np_seed"]
     rng = random.Random(spec["case_seed"])
     b = Binding("hg", LABEL_FAMILIES["zero"](n), rng)
-    obj = build(b, spec["edges"], rng)
+    if spec.get("prev_edges") is not None:
+        obj = build(b, spec["prev_edges"], rng)
+        with quiet():
+            np.random.seed(nseed)
+            for fn, args in ((RW.transition_matrix, ()), (RW.RW_stationary_state, ()),
+                             (RW.random_walk_density, (np.full(n, 1.0 / n), 2)), (RW.random_walk, (0, 3))):
+                try:
+                    fn(obj, *args)
+                except Exception:
+                    pass                           # judged on its own in the cases without a history
+        mutate(b, obj, spec["prev_edges"], spec["edges"], rng)
+    else:
+        obj = build(b, spec["edges"], rng)
     log = {}
     with quiet():
         try:
@@ -128,14 +155,15 @@ def rw_execute(spec):
         except Exception as ex:
             log["Pi_error"] = "%s: %s" % (type(ex).__name__, ex)
         dens = []
-        starts = [np.eye(n)[rng.randrange(n)], np.full(n, 1.0 / n)]
+        # "the walker starts on node j" as a float vector or as an integer-typed one (a row of np.eye(n, dtype=int))
+        starts = [np.eye(n, dtype=rng.choice([float, int]))[rng.randrange(n)], np.full(n, 1.0 / n)]
         w = np.array([rng.random() + 0.01 for _ in range(n)])
         starts.append(w / w.sum())
         for s0 in starts[:spec["ndens"]]:
             time = rng.choice([0, 1, 2, 3, 5, 8])
             try:
                 lst = RW.random_walk_density(obj, np.array(s0), time)
-                dens.append({"s0": [float(x) for x in s0], "time": time,
+                dens.append({"s0": [float(x) for x in s0], "time": time, "dtype": str(np.asarray(s0).dtype),
                              "list": [[float(x) for x in np.asarray(d, dtype=float).ravel()] for d in lst]})
             except Exception as ex:
                 dens.append({"s0": [float(x) for x in s0], "time": time, "error": "%s: %s" % (type(ex).__name__, ex)})
@@ -239,9 +267,15 @@ def rw_validate(res, specs, procs=8):
         fn = sorted({"RW_stationary_state" if f.startswith("stationary") else
                      "transition_matrix" if f.startswith("transition") else
                      "random_walk_density" if f.startswith("density") else "random_walk" for f in prop})
-        res.reject({"part": "randwalk", "function": fn if len(fn) > 1 else fn[0], "clauses": sorted(prop)},
-                   "random walk on the connected hypergraph %s (nodes 0..%d): %s" % (
-                       e0, sp["n"] - 1, "; ".join("%s [%s]" % (f, detail.get(f, "decided by TLC")) for f in sorted(prop))),
+        sig = {"part": "randwalk", "function": fn if len(fn) > 1 else fn[0], "clauses": sorted(prop)}
+        hist = ""
+        if sp.get("prev_edges") is not None:
+            sig["history"] = "object edited after earlier calls"
+            hist = " [the same object had the hyperedges %s when the functions were first called on it]" % (
+                [[x - 1 for x in e] for e in sp["prev_edges"]],)
+        res.reject(sig,
+                   "random walk on the connected hypergraph %s (nodes 0..%d)%s: %s" % (
+                       e0, sp["n"] - 1, hist, "; ".join("%s [%s]" % (f, detail.get(f, "decided by TLC")) for f in sorted(prop))),
                    {"spec": sp, "hyperedges_0_based": e0, "failed": failed, "detail": detail,
                     "logged": {k: log[k] for k in ("K", "Pi", "Pi_error", "K_error", "walks") if k in log}})
     return nrej, cases, logs, v
@@ -277,11 +311,19 @@ def randwalk_part(res, tier, seed):
               "case_seed": seed * 1000003 + i, "np_seed": (seed * 7919 + i * 13) % (2 ** 31),
               "ndens": 2 if tier == "quick" else 3, "nwalks": 3 if tier == "quick" else 5}
              for i, (n, es) in enumerate(todo)]
+    # every fourth hypergraph is reached by editing an object on which the functions have already been called
+    for i, sp in enumerate(specs):
+        if i % 4 == 1 and sp["n"] >= 3:
+            prev = rng.choice(conn4) if sp["n"] == 4 else random_connected(rng, sp["n"], 5)
+            if sorted(tuple(e) for e in prev) != sorted(tuple(e) for e in sp["edges"]):
+                sp["prev_edges"] = [list(e) for e in prev]
     nrej, cases, logs, v = rw_validate(res, specs)
     res.cov(randwalk_hypergraphs=len(cases), randwalk_rejected=nrej,
             walks_validated=sum(len(c["walks"]) for c in cases),
             density_steps_validated=sum(max(0, len(d.get("list", [])) - 1) for l in logs for d in l["dens"]),
             connected_4_node_hypergraphs_exhaustive=exhaustive4,
+            randwalk_on_edited_objects=sum(1 for sp in specs if sp.get("prev_edges") is not None),
+            integer_typed_starting_densities=sum(1 for l in logs for d in l["dens"] if d.get("dtype", "").startswith("int")),
             traces_validated_against_impl=len(cases), validator_states=v["states"])
     res.sample({"part": "randwalk", "spec": specs[-1], "K_spec_row0": v["values"][-1]["K"][0], "Pi_spec": v["values"][-1]["Pi"],
                 "Pi_returned": logs[-1].get("Pi", logs[-1].get("Pi_error")), "walk": logs[-1]["walks"][0]})
@@ -311,9 +353,20 @@ def ct_execute(spec):
     n, T, rates = spec["n"], spec["T"], spec["rates"]
     rng = random.Random(spec["case_seed"])
     b = Binding("hg", LABEL_FAMILIES[spec["family"]](n), rng)
-    obj = build(b, spec["edges"], rng, extra_nodes=range(1, n + 1))
     I0 = set(spec["I0"])
     I_0 = {b.lab(x): (1 if x in I0 else 0) for x in range(1, n + 1)}
+    if spec.get("prev_edges") is not None:
+        # the same object, with other hyperedges, has been through a run before
+        obj = build(b, spec["prev_edges"], rng, extra_nodes=range(1, n + 1))
+        np.random.seed(spec["np_seed"] + 1)
+        try:
+            with quiet():
+                simplicial_contagion(obj, dict(I_0), T, rates[0], rates[1], rates[2])
+        except Exception:
+            pass
+        mutate(b, obj, spec["prev_edges"], spec["edges"], rng)
+    else:
+        obj = build(b, spec["edges"], rng, extra_nodes=range(1, n + 1))
     drain()
     np.random.seed(spec["np_seed"])
     try:
@@ -360,8 +413,11 @@ def ct_validate(res, specs, procs=8):
     for ti, (li, prop, failed) in first.items():
         d, ev = descr[ti], traces[ti][li]
         regime = "deterministic" if all(x in ("0", "1") for x in traces[ti][0]["r"].values()) else "stochastic"
-        show = {k: d[k] for k in ("n", "edges", "labels", "I0", "T", "rates", "np_seed")}
-        res.reject({"part": "contagion", "clauses": sorted(prop), "regime": regime, "event": ev["kind"]},
+        show = {k: d[k] for k in ("n", "edges", "labels", "I0", "T", "rates", "np_seed", "prev_edges") if k in d}
+        sig = {"part": "contagion", "clauses": sorted(prop), "regime": regime, "event": ev["kind"]}
+        if d.get("prev_edges") is not None:
+            sig["history"] = "object edited after an earlier run"
+        res.reject(sig,
                    "simplicial_contagion: %s fail(s) at %s of the run %s (rates = beta, beta_D, mu); returned counts %s" % (
                        ",".join(sorted(prop)),
                        "the returned vector" if li == 0 else "sweep event %d (infected %s)" % (li, ev.get("I")),
@@ -396,10 +452,13 @@ def contagion_part(res, tier, seed):
         n = rng.choice([2, 3, 4, 4, 5, 5, 6, 6, 7, 7])
         es = set()
         for _ in range(rng.randint(0, n + 3)):
-            z = rng.choice([1, 2, 2, 2, 3, 3, 3, 4])
+            z = rng.choice([1, 2, 2, 2, 3, 3, 3, 4, 5])
             if z <= n:
                 es.add(tuple(sorted(rng.sample(range(1, n + 1), z))))
         es = sorted(es)
+        if i % 6 == 5:
+            # no pairs and no triangles at all: nodes only in hyperedges of size 4-5, in singletons, or isolated
+            es = [e for e in es if len(e) not in (2, 3)]
         if rng.random() < 0.2:
             I0 = set(rng.choice([[], list(range(1, n + 1))]))
         else:
@@ -416,13 +475,25 @@ def contagion_part(res, tier, seed):
     specs = [{"part": "contagion", "n": n, "edges": [list(e) for e in es], "family": fams[i % 4], "I0": sorted(I0), "T": T,
               "rates": list(rates), "np_seed": (seed * 104729 + i * 31) % (2 ** 31), "case_seed": seed * 1000033 + i}
              for i, (n, es, I0, T, rates) in enumerate(plans)]
+    # every fifth run happens on an object that had other hyperedges during an earlier run
+    for i, sp in enumerate(specs):
+        if i % 5 == 2:
+            n = sp["n"]
+            prev = set()
+            for _ in range(rng.randint(1, n + 3)):
+                z = rng.choice([2, 2, 3, 3, 4])
+                if z <= n:
+                    prev.add(tuple(sorted(rng.sample(range(1, n + 1), z))))
+            if sorted(prev) != sorted(tuple(e) for e in sp["edges"]):
+                sp["prev_edges"] = [list(e) for e in sorted(prev)]
     traces, descr, v, first, only_drift = ct_validate(res, specs)
     det = sum(1 for t_ in traces if all(x in ("0", "1") for x in t_[0]["r"].values()))
     hooked_runs = sum(1 for t_ in traces if len(t_) > 1)
     res.cov(contagion_runs=len(traces), contagion_deterministic_regime_runs=det, contagion_stochastic_runs=len(traces) - det,
             contagion_runs_with_hook_events=hooked_runs, contagion_sweep_events=sum(len(t_) - 1 for t_ in traces),
             events=v["events"], contagion_rejected_runs=len(first), contagion_model_drift_runs=len(only_drift),
-            hook_active=hooked_runs > 0)
+            hook_active=hooked_runs > 0, contagion_on_edited_objects=sum(1 for d in descr if d.get("prev_edges") is not None),
+            contagion_runs_without_pairs_and_triangles=sum(1 for d in descr if not any(len(e) in (2, 3) for e in d["edges"])))
     res.cov(traces_validated_against_impl=len(traces), validator_states=v["states"])
     if traces:
         k = max(range(len(traces)), key=lambda x: len(traces[x]))
@@ -437,7 +508,11 @@ ASSUMPTIONS = (
     "may-relation of a sweep, the hook bookkeeping, the length of the returned vector / walk / density list and their first entries "
     "are model detail (MODEL-DRIFT)",
     "without hook events (HGX_VERIF off or hook not installed) only the returned vector is judged",
-    "hypergraphs for the random walk are unweighted, connected, labelled 0..N-1, sizes 2..5; horizon T >= 1 for the contagion")
+    "hypergraphs for the random walk are unweighted, connected, labelled 0..N-1, sizes 2..5; horizon T >= 1 for the contagion",
+    "history of the OBJECT: every fourth random-walk hypergraph and every fifth contagion run is reached by editing (remove_edge / add_edge) an "
+    "object on which the functions have already been called; the statement speaks about the hypergraph as it is, so the observation is judged "
+    "like any other against the state read back through the public API",
+    "starting densities: one-node (float or integer-typed unit vector), uniform, random; contagion hyperedges have sizes 1..5")
 
 
 def run(tier, seed):
